@@ -237,7 +237,9 @@ func (r *Rewriter) expr(e *awk.Node) *awk.Node {
 		if len(e.A) == 1 && e.A[0].K == awk.Num && e.A[0].N == float64(int(e.A[0].N)) && r.hit("subscript-as-string", 4) {
 			return awk.IndexN(e.Name, awk.StrN(strconv.Itoa(int(e.A[0].N))))
 		}
-		if len(e.A) == 2 && r.hit("subscript-subsep", 4) {
+		// (a, b) joins after both are evaluated; a SUBSEP (b) converts a and reads SUBSEP before b is: the same
+		// only when b leaves the conversion format and SUBSEP alone
+		if len(e.A) == 2 && !assignsFormat(e.A[1]) && !assignsVar(e.A[1], "SUBSEP") && r.hit("subscript-subsep", 4) {
 			return awk.IndexN(e.Name, awk.BinN(awk.BinN(r.expr(e.A[0]), " ", awk.VarN("SUBSEP")), " ", awk.GroupN(r.expr(e.A[1]))))
 		}
 		for i := range e.A {
@@ -313,10 +315,25 @@ func (r *Rewriter) expr(e *awk.Node) *awk.Node {
 // concatenation moves the moment its left operands are converted to strings
 // past the evaluation of its right operand, which is only an equivalence when
 // that operand leaves the conversion format alone.
+func assignsVar(n *awk.Node, name string) bool {
+	found := false
+	awk.Walk(n, func(m *awk.Node) {
+		if (m.K == awk.Assign || m.K == awk.Incr) && len(m.A) > 0 && m.A[0] != nil && m.A[0].K == awk.Var && m.A[0].Name == name {
+			found = true
+		}
+	})
+	return found
+}
+
 func assignsFormat(n *awk.Node) bool {
 	found := false
 	awk.Walk(n, func(m *awk.Node) {
 		if (m.K == awk.Assign || m.K == awk.Incr) && len(m.A) > 0 && m.A[0] != nil && m.A[0].K == awk.Var && (m.A[0].Name == "CONVFMT" || m.A[0].Name == "OFMT") {
+			found = true
+		}
+		// a user function may assign the format in its body; getline, sub and gsub can have it as their target
+		// (thorough run, seed 5: `g0 (-0.1) f0(g0)` with f0 setting CONVFMT = "%.3f")
+		if m.K == awk.UserCall || m.K == awk.Getline || m.K == awk.Call && (m.Name == "sub" || m.Name == "gsub") {
 			found = true
 		}
 	})
